@@ -553,8 +553,12 @@ func (c Component) Hash() uint64 {
 
 // HashInto hashes the current component into the hasher
 func (c Component) HashInto(h hash.Hash) {
-	tbuf := []byte{0, 0, 0, 0, 0, 0, 0, 0}
+	// Type and value length in fixed width, then the value. Without the length the bytes
+	// fed for the consecutive components of a name can be split in more than one way, and
+	// different names (/8=%00/256= and /8=/1=%00, say) get the same hash by construction.
+	tbuf := []byte{0, 0, 0, 0, 0, 0, 0, 0, 0, 0, 0, 0, 0, 0, 0, 0}
 	binary.BigEndian.PutUint64(tbuf, uint64(c.Typ))
+	binary.BigEndian.PutUint64(tbuf[8:], uint64(len(c.Val)))
 	h.Write(tbuf)
 	h.Write(c.Val)
 }
